@@ -453,6 +453,7 @@ pub fn rich_name_strategy() -> impl Strategy<Value = String> {
         1 => "[a-z]{26}",
         1 => "[a-z]{100,120}",
         1 => "[a-z]{250,258}",
+        1 => "[a-z]{255}",
         1 => "[ab]{1,4}[:*?<>|\"\\\\]",
         1 => "PREFIX[a-z]{1,3}",
         1 => "[A-Z]{1,6}~[1-9](\\.[A-Z]{1,3})?",
@@ -589,9 +590,18 @@ pub fn pressure_case_strategy(gc: GenCfg) -> impl Strategy<Value = Case> {
                 }
             };
             if t < 34 {
-                let p = join(base, &pressure_name(counter, r.a));
-                counter += 1;
-                made.push(p.clone());
+                // one create in eight names an entry created earlier (still there: opened; gone: created again; and if the
+                // library does not recognise its own entry: a duplicate)
+                let again = if r.c % 8 == 0 { pick_made(&made, r.b) } else { None };
+                let p = match again {
+                    Some(p) => p,
+                    None => {
+                        let p = join(base, &pressure_name(counter, r.a));
+                        counter += 1;
+                        made.push(p.clone());
+                        p
+                    }
+                };
                 ops.push(Op::CreateFile { via: 0, path: p, keep: 0 });
             } else if t < 46 {
                 let p = join(base, &pressure_name(counter, r.a));
